@@ -1,15 +1,18 @@
-//@ unit rdr_getNextCharIfNot
+//@ unit rdr_skippedSpace
 //@ props C03 C04 C01
 //@ kind L
 //@ def all kCharBufSize=4
 //@ rebind src/xercesc/internal/XMLReader.hpp kCharBufSize
-//@ enforce XMLReader_getNextCharIfNot
+//@ enforce XMLReader_skippedSpace
 //@ replace XMLReader_refreshCharBuffer
-//@ entry h_getNextCharIfNot
-//@ note spec/eol.h is written from XML 1.0 5th ed. 2.11 and XML 1.1 2nd ed. 2.11; its parameter r11 ("the 1.1 rule set applies") is instantiated with fNEL, which xerces also sets for 1.0 documents under the non-standard enableNELWS option
-//@ note refreshCharBuffer is replaced by the contract proved in unit rdr_refreshCharBuffer; the calls go through the ghost shim of contracts/XMLReader_refill_obs.inc, which records what each refill returned and delivered
+//@ replace XMLReader_isWhitespace
+//@ cbmc all --arrays-uf-always
+//@ entry h_skippedSpace
+//@ note isWhitespace is replaced by a contract over an arbitrary (nondet) predicate table WS; the tables behind it are checked against the XML productions in the chartab_* units. NB fgCharCharsTable1_1 flags U+0085 and U+2028 as white space (see findings/xml11_nel_is_whitespace), so WS[0x2028] = 1 is a real case for version 1.1 documents
+//@ note spec/eol.h is written from XML 1.0 5th ed. 2.11 and XML 1.1 2nd ed. 2.11; its parameter r11 is instantiated with fNEL
+//@ note refreshCharBuffer is replaced by the contract proved in unit rdr_refreshCharBuffer; the calls go through the ghost shim of contracts/XMLReader_refill_obs.inc
 //@ note handleEOL is NOT replaced by a contract: its real body is extracted and verified in place
-//@ note line/column: the recommendations define none; SPEC_EOL_LINE / SPEC_EOL_COL (DESIGN C03: every character that does not end a line advances the column by one) are the oracle
+//@ note by reading, not an obligation: skippedSpace declares `const XMLCh curCh` and lets handleEOL write it through `(XMLCh&)curCh` -- modifying a const object is undefined behaviour in C++ ([dcl.type.cv]); the extracted C text does the same through a pointer cast
 #define VERIF_DEFINE_GHOSTS
 #include "verif_prelude.h"
 #include "eol.h"
@@ -19,6 +22,14 @@
 //@ include XMLReader_ri.inc
 //@ include XMLReader_refill_obs.inc
 #define EXT (fSource == Source_External)
+_Bool WS[65536];
+/*@extract src/xercesc/internal/XMLReader.hpp XMLReader::isWhitespace
+declonly
+contract
+__CPROVER_requires(1)
+__CPROVER_assigns()
+__CPROVER_ensures(__CPROVER_return_value == WS[toCheck])
+@*/
 
 /* the sub rule turns `a || f()` into the equivalent `a ? 1 : f()`: goto-instrument 6.11 aborts ("no definite size for lvalue target
    tmp_if_expr") on the bool temporary of a side-effecting || inside a function that is inlined into the enforced one */
@@ -28,29 +39,28 @@ call refreshCharBuffer => XMLReader_refreshCharBuffer_obs
 throws XMLReader_refreshCharBuffer_obs
 @*/
 
-/*@extract src/xercesc/internal/XMLReader.hpp XMLReader::getNextCharIfNot
+/*@extract src/xercesc/internal/XMLReader.cpp XMLReader::skippedSpace
 ret false
+sub \(XMLCh&\)curCh => *(XMLCh*)&curCh
 call refreshCharBuffer => XMLReader_refreshCharBuffer_obs
+call isWhitespace => XMLReader_isWhitespace
 call handleEOL => XMLReader_handleEOL
 throws XMLReader_refreshCharBuffer_obs XMLReader_handleEOL
 contract
 //@ include XMLReader_take1.contract.inc
-//@ include XMLReader_nextchar.contract.inc
-/* getNextCharIfNot: U[0] is taken iff there is one and it is not the character the caller does not want */
-__CPROVER_ensures(!verif_thrown ==> __CPROVER_return_value == (GOT0 && U0 != chNotToGet))
+/* skippedSpace: U[0] is taken iff there is one and it is white space; a refill for it is attempted iff there is no spare character */
+__CPROVER_ensures(!verif_thrown ==> __CPROVER_return_value == (GOT0 && WS[U0]))
+__CPROVER_ensures(HAD0 ? RF_N <= 1 : RF_N >= 1)
 /* refused or nothing there: nothing is consumed -- the unread sequence still starts at U[0], wherever it now sits */
 __CPROVER_ensures((!verif_thrown && !__CPROVER_return_value && HAD0) ==> (RF_N == 0 && fCharIndex == O_IDX && fCharsAvail == O_AV))
 __CPROVER_ensures((!verif_thrown && !__CPROVER_return_value && !HAD0 && GOT0) ==> (RF_N == 1 && fCharIndex == 0 && fCharsAvail == RF1_AVAIL && fCharBuf[0] == RF1_C0))
 __CPROVER_ensures((!verif_thrown && !__CPROVER_return_value && !GOT0) ==> fCharIndex == fCharsAvail)
 @*/
 
-XMLCh CH;
-void h_getNextCharIfNot(void)
+void h_skippedSpace(void)
 {
   VERIF_INPUT(SELF);
-  VERIF_INPUT(CH);
   verif_thrown = 0; RF_N = 0;
-  XMLCh notToGet; VERIF_INPUT(notToGet);
-  XMLReader_getNextCharIfNot(notToGet, &CH);
+  XMLReader_skippedSpace();
   VERIF_CANARY("after call");
 }
